@@ -33,6 +33,71 @@ func TestVerifC18Readers(t *testing.T) {
 		off := []uint64{1000, 4648398125000000000, 1 << 40, 0}[rng.Intn(4)]
 		c18Readers(rep, filepath.Join(verifrep.Dir(), fmt.Sprintf("c18-%d", k)), seed, off, k == 0)
 	}
+	// a big network: the serialized state (one snapshot entry) is several megabytes
+	sessions := 2500
+	if verifrep.Tier() == "thorough" {
+		sessions = 2500 + int(base%5)*2500
+	}
+	c18Large(rep, filepath.Join(verifrep.Dir(), "c18-large"), base, sessions)
+}
+
+// c18Large: the snapshot writer and the restore reader must agree on long entries too. The
+// state of a network with thousands of sessions is written as one length-prefixed entry of
+// several megabytes; a node restored from it must hold what the writer held.
+func c18Large(rep *verifrep.R, dir string, seed int64, sessions int) {
+	os.MkdirAll(dir, 0755)
+	defer os.RemoveAll(dir)
+	viol := func(key, what string) {
+		rep.Violation("C18", key, what, map[string]interface{}{"seed": seed, "sessions": sessions})
+	}
+	f := newFixture(filepath.Join(dir, "node"))
+	os.MkdirAll(filepath.Join(dir, "twin"), 0755)
+	tw := newTwin(filepath.Join(dir, "twin"))
+	defer func() { f.close(); tw.close() }()
+	idx := uint64(0)
+	now := verifgen.T0
+	var last uint64
+	apply := func(e verifgen.Entry) {
+		idx++
+		now += 1e6
+		e.Id, e.UnixNano = idx, now
+		l := raftLogOf(&e)
+		f.logstore.StoreLog(l)
+		f.fsm.Apply(l)
+		tw.apply(l)
+		last = idx
+	}
+	real := strings.Repeat("a long real name, ", 20)
+	for k := 0; k < sessions; k++ {
+		apply(verifgen.Entry{Type: int64(robust.CreateSession), Data: fmt.Sprintf("%0256x", k)})
+		sid := idx
+		apply(verifgen.Entry{Type: int64(robust.IRCFromClient), Session: sid, Data: fmt.Sprintf("NICK big%d", k), ClientMessageId: uint64(2*k + 1)})
+		apply(verifgen.Entry{Type: int64(robust.IRCFromClient), Session: sid, Data: fmt.Sprintf("USER u%d 0 * :%s%d", k, real, k), ClientMessageId: uint64(2*k + 2)})
+	}
+	// everything is old: the whole history is folded into the state entry
+	rs, persisted, err := f.snapshot(last, now+int64(4*3600e9), -1)
+	if err != nil || !persisted {
+		viol("snapshot-error", fmt.Sprint(err))
+		return
+	}
+	size := 0
+	for _, st := range f.fsm.lastSnapshotState {
+		if len(st) > size {
+			size = len(st)
+		}
+	}
+	_ = rs
+	rep.Obs("large-state.bytes", size)
+	rep.Obs("large-state.sessions", sessions)
+	if _, err := f.restoreLatest(); err != nil {
+		viol("reader-disagrees:restore:long-entry", fmt.Sprintf("a snapshot whose state entry has %d bytes (%d sessions) was written without error but cannot be restored: %v", size, sessions, err))
+		return
+	}
+	if d := stateDiff(tw.srv.VerifView(), ircServer.VerifView()); len(d) > 0 && !(len(d) == 1 && d[0] == "Config.WhitelistedOrigins") {
+		viol("reader-disagrees:restore:state", fmt.Sprintf("after restoring a snapshot with a state entry of %d bytes the state differs from the one built by FSM.Apply (in %v)", size, d))
+	}
+	rep.Cases(sessions)
+	rep.Case(fmt.Sprintf("large-state|%dMB", size>>20))
 }
 
 func c18Readers(rep *verifrep.R, dir string, seed int64, off uint64, sample bool) {
